@@ -110,7 +110,7 @@ def mutants(text, byte_level=False):
                 yield ("transpose-end-tags", text[:a1] + text[a2:b2] + between + text[a1:b1] + text[b2:], False)
     # 6 stray end tag at each token boundary
     for bnd in bounds:
-        for nm in (names[0], names[-1], "ZZZ"):
+        for nm in list(dict.fromkeys([names[0], names[-1]] + names[:6])) + ["ZZZ"]:
             yield ("insert-stray-end-tag", text[:bnd] + "</" + nm + ">" + text[bnd:], False)
     # 8 second top-level element
     yield ("second-root", text + "<ZZZ></ZZZ>", False)
